@@ -97,79 +97,51 @@ def run(ctx):
         ctx.fn(u.qualname(f))
     fbody, pbody = body_of(F), body_of(P)
 
-    # ---- locate pieces of the formatter
-    pr_var = next((v for v in walk(fbody) if v.get('kind') == 'VarDecl' and v.get('name') == 'is_printable'), None)
-    ctx.require(pr_var is not None, 'format_data_string: is_printable not found')
-    main_if = next((s for s in stmts_of(fbody) if s.get('kind') == 'IfStmt' and (ref_decl(if_parts(s)[0]) or {}).get('id') == pr_var['id'] and if_parts(s)[2] is not None), None)
-    ctx.require(main_if is not None, 'format_data_string: quoted/hex dispatch not found')
-    _, q_branch, h_branch = if_parts(main_if)
-    q_loop = next(x for x in walk(q_branch) if x.get('kind') == 'ForStmt')
-    h_loop = next(x for x in walk(h_branch) if x.get('kind') == 'ForStmt')
-    # printable predicate: the loop that clears is_printable
-    pred_if = None
-    for x in walk(fbody):
-        if x.get('kind') == 'IfStmt' and x.get('_off', 0) < main_if.get('_off', 0):
-            cond, then, els = if_parts(x)
-            if any(y.get('kind') == 'BinaryOperator' and y.get('opcode') == '=' and (ref_decl(y['inner'][0]) or {}).get('id') == pr_var['id'] and int_value(y['inner'][1]) == 0 for y in walk(then)):
-                pred_if = x
-    ctx.require(pred_if is not None, 'format_data_string: printable predicate not found')
-    pcond = if_parts(pred_if)[0]
-    idxs = {canon(y) for y in walk(pcond) if y.get('kind') == 'ArraySubscriptExpr'}
-    ctx.require(len(idxs) == 1, 'printable predicate reads %s' % idxs)
-    pidx = idxs.pop()
-    admitted = []
-    for b in range(256):
-        I.ov = {pidx: b}
-        v = I.truth(I.eval(pcond, {}))
-        ctx.require(v in (0, 1), 'printable predicate undecidable for byte %d' % b)
-        if v == 0:
-            admitted.append(b)
-    ctx.require(90 <= len(admitted) <= 110, 'printable predicate admits %d bytes' % len(admitted))
+    # ---- the formatter's per-byte behaviour, by partial evaluation of the whole function on every
+    # one-byte input (no mask): quoted form `"<text>"` or two hex digits.  Helpers, switch, all_of,
+    # digit tables ... are folded; nothing is run.
+    from peval import PEval, Lit, Str, Undecided, Fault
+    PE = PEval([u])
+    skip_flag = None
+    for r_ in u.roots:
+        for e_ in walk(r_):
+            if e_.get('kind') == 'EnumConstantDecl' and e_.get('name') == 'SKIP_STRINGS':
+                skip_flag = enums.get(e_['id'])
+    ctx.require(skip_flag is not None, 'FormatDataFlags::SKIP_STRINGS not found')
 
-    # formatter chain in the quoted loop
-    qstmts = stmts_of(loop_body(q_loop))
-    qchain = [s for s in qstmts if s.get('kind') == 'IfStmt' and not any('mask' in canon(y) for y in walk(if_parts(s)[0]) if y.get('kind') == 'DeclRefExpr')]
-    ctx.require(len(qchain) == 1, 'quoted-form escape chain not found')
-    didx = {canon(y) for y in walk(if_parts(qchain[0])[0]) if y.get('kind') == 'ArraySubscriptExpr'}
-    ctx.require(len(didx) == 1, 'quoted-form chain reads %s' % didx)
-    didx = didx.pop()
+    def fmt_bytes(bs, flags=0):
+        try:
+            r = PE.call_with(F, [Lit(bytes(bs)), len(bs), None, flags])
+        except Undecided as e:
+            raise AnalysisBroken('format_data_string: cannot fold the function on the constant input %s (%s)' % (bytes(bs), e))
+        if not isinstance(r, Str):
+            raise AnalysisBroken('format_data_string does not evaluate to a string on %s' % bytes(bs))
+        return bytes(r.b)
+    rendered = {}
+    admitted = []
+    fault = {}
+    for b in range(256):
+        try:
+            rendered[b] = fmt_bytes([b])
+        except Fault as e:
+            fault[b] = str(e)
+            continue
+        if len(rendered[b]) >= 2 and rendered[b][:1] == b'"' and rendered[b][-1:] == b'"':
+            admitted.append(b)
+    ctx.require(fault or 90 <= len(admitted) <= 110, 'format_data_string renders %d byte values in the quoted form' % len(admitted))
 
     def emitted(b):
-        """bytes the quoted form emits for input byte b (the selected branch may be several appends)"""
-        I.ov = {didx: b}
-        out = bytearray()
+        return rendered[b][1:-1] if b in rendered else None
 
-        def run(st):
-            s0 = strip(st)
-            k = s0.get('kind')
-            if k == 'CompoundStmt':
-                return all(run(c) for c in kids(s0))
-            if k == 'IfStmt':
-                cond, then, els = if_parts(s0)
-                v = I.truth(I.eval(cond, {}))
-                if v not in (0, 1):
-                    return False
-                br = then if v == 1 else els
-                return run(br) if br is not None else True
-            if k == 'CXXOperatorCallExpr' and call_name(s0) == 'operator+=' and canon(s0['inner'][1]) == 'ret':
-                rhs = s0['inner'][2]
-                lit = string_lit(rhs)
-                if lit is not None:
-                    out.extend(lit)
-                    return True
-                v = bv_const(I.eval(rhs, {}))
-                if v is not None:
-                    out.append(v & 0xFF)
-                    return True
-                return False
-            if k == 'CXXMemberCallExpr' and call_name(s0) == 'push_back' and canon(member_call_object(s0)) == 'ret':
-                v = bv_const(I.eval(call_args(s0)[0], {}))
-                if v is not None:
-                    out.append(v & 0xFF)
-                    return True
-                return False
-            return k in ('NullStmt',)
-        return bytes(out) if run(qchain[0]) else None
+    # structural pieces used by the mask-toggle rule (optional: a restructured formatter leaves them undecided)
+    pr_var = next((v for v in walk(fbody) if v.get('kind') == 'VarDecl' and v.get('name') == 'is_printable'), None)
+    main_if = next((s_ for s_ in stmts_of(fbody) if pr_var is not None and s_.get('kind') == 'IfStmt' and (ref_decl(if_parts(s_)[0]) or {}).get('id') == pr_var['id'] and if_parts(s_)[2] is not None), None)
+    ctx.require(main_if is not None, 'format_data_string: quoted/hex dispatch (`if (is_printable) ... else ...`) not found')
+    _, q_branch, h_branch = if_parts(main_if)
+    q_loop = next((x for x in walk(q_branch) if x.get('kind') in LOOPS), None)
+    h_loop = next((x for x in walk(h_branch) if x.get('kind') in LOOPS), None)
+    ctx.require(q_loop is not None and h_loop is not None, 'format_data_string: per-byte loops of the two forms not found')
+    qchain = [q_loop]
 
     # parser: the reading_string branch
     rs_var = next((v for v in walk(pbody) if v.get('kind') == 'VarDecl' and v.get('name') == 'reading_string'), None)
@@ -238,14 +210,18 @@ def run(ctx):
 
     # ---- R2 hex form
     R = 'C09-R2'
-    hp = [c for c in walk(loop_body(h_loop)) if c.get('kind') == 'CallExpr' and call_name(c) == 'string_printf']
-    ctx.require(len(hp) == 1, 'hex form: string_printf not found')
-    fmt = string_lit(call_args(hp[0])[0]).decode()
-    argt = dtype(strip(call_args(hp[0])[1], casts=False)) if False else dtype(strip(call_args(hp[0])[1]))
-    for b in (0, 0x0A, 0x7F, 0x80, 0xFF):
-        sb = b - 256 if (b >= 128 and int_type_info(argt) == (8, True)) else b
-        txt = printf_emit(fmt, sb)
-        ctx.check(txt == '%02X' % b, R, 'hex|emit-0x%02X' % b, hp[0], 'byte -> %s' % txt, 'hex form renders byte 0x%02X as %r (argument type %s, format %r)' % (b, txt, argt, fmt))
+    for b in range(256):
+        if b in fault:
+            ctx.bad(R, 'hex|emit-0x%02X' % b, F, 'for byte 0x%02X format_data_string %s' % (b, fault[b]))
+            continue
+        try:
+            txt = fmt_bytes([b], skip_flag)
+            txt2 = fmt_bytes([b, 0x00])
+        except Fault as e:
+            ctx.bad(R, 'hex|emit-0x%02X' % b, F, 'for byte 0x%02X format_data_string %s' % (b, e))
+            continue
+        ok_ = txt == (b'%02X' % b) and txt2 == (b'%02X00' % b)
+        ctx.check(ok_, R, 'hex|emit-0x%02X' % b, F, 'byte -> %s' % txt.decode('latin1'), 'hex form renders byte 0x%02X as %r (and %r when followed by a NUL byte); expected two uppercase hex digits' % (b, txt, txt2), nontrivial=b in (0, 0x0A, 0x7F, 0x80, 0xFF))
     # parser nybble table
     for ch in '0123456789ABCDEFabcdef':
         I.ov = {'in[0]': ord(ch), 'in[1]': 0}
@@ -379,8 +355,8 @@ def run(ctx):
     ctx.check(turn_progress(chain), R, 'main-loop|progress', main_loop, 'every branch of the state machine advances the cursor or returns', 'a branch of the main loop neither advances nor returns: the parser hangs on some text')
     # strtoull/strtod end pointers
     conv = [c for c in walk(pbody) if c.get('kind') == 'CallExpr' and call_name(c) in ('strtoull', 'strtod', 'strtof', 'strtoul', 'strtoll')]
-    okc = len(conv) == 6 and all(canon(call_args(c)[0]) == 'in' and 'in' in canon(call_args(c)[1]) for c in conv)
-    ctx.check(okc, R, 'numeric-scans', P, '6 libc scans start at the cursor and leave it at their end pointer (never before it, never past the NUL)', 'numeric scans changed: %s' % [src_text(c, 50) for c in conv])
+    okc = len(conv) >= 3 and all(canon(call_args(c)[0]) == 'in' and 'in' in canon(call_args(c)[1]) for c in conv)
+    ctx.check(okc, R, 'numeric-scans', P, 'every libc numeric scan starts at the cursor and leave it at their end pointer (never before it, never past the NUL)', 'numeric scans changed: %s' % [src_text(c, 50) for c in conv])
     # file state only with ALLOW_FILES
     fsets = [x for x in walk(pbody) if x.get('kind') == 'BinaryOperator' and x.get('opcode') == '=' and canon(x['inner'][0]) == 'reading_filename' and int_value(x['inner'][1]) == 1]
     okf = len(fsets) == 1 and any(canon(n_) == 'allow_files' and pol for n_, pol in atoms(path_facts(fsets[0])))
@@ -436,6 +412,9 @@ def run(ctx):
                     fx['append'].append(n)
         run_seq([br])
         tot = sum(x for x in fx['append'] if isinstance(x, int))
+        if any(x.get('kind') in LOOPS + ('SwitchStmt',) for x in walk(br)) and (tot != exp or fx['mask'] != exp or fx['adv'] != n_hash):
+            ctx.undecided(R, 'width|%s' % (pre * n_hash), br, 'the `%s` branch counts its prefix characters with a loop / switch, which the width-table walker does not model' % pre)
+            continue
         ctx.check(tot == exp and fx['mask'] == exp and fx['adv'] == n_hash and not fx['unknown'], R, 'width|%s' % (pre * n_hash), br, '%s -> %d data bytes, %d mask bytes' % (pre * n_hash, tot, fx['mask']),
                   '`%s` appends %s data byte(s) and %s mask byte(s) after %s prefix characters; expected %d/%d/%d' % (pre * n_hash, tot, fx['mask'], fx['adv'], exp, exp, n_hash))
     # every data append is paired with the same number of mask bytes (judged on the
@@ -511,7 +490,7 @@ def run(ctx):
             sz = [int_value(call_args(s0)[1]) for s0 in [strip(s_) for s_ in kids(blk)] if s0.get('kind') == 'CXXMemberCallExpr' and call_name(s0) == 'append']
             if c and sz:
                 swaps.append((call_name(c[0]), sz[0]))
-    ctx.check(len(swaps) >= 7 and all(n_ == 'bswap%d' % (8 * z) for n_, z in swaps), R, 'swap-width', P, 'values are swapped with the bswap of their own width iff big_endian != host', 'swap/width pairs are %s' % swaps)
+    ctx.check(len(swaps) >= 3 and len({z for _, z in swaps}) >= 3 and all(n_ == 'bswap%d' % (8 * z) for n_, z in swaps), R, 'swap-width', P, 'values are swapped with the bswap of their own width iff big_endian != host', 'swap/width pairs are %s' % swaps)
 
     # ---- R5 hex dump guards
     R = 'C09-R5'
@@ -559,11 +538,15 @@ def run(ctx):
             wl = enclosing(a, ('WhileStmt',))
             r = relation(while_parts(wl)[0], True)
             okw = okw and r is not None and r[1] == '>=' and 'iov_len' in canon(r[2])
-    ctx.check(okw, R, 'iovec-cursor|while', advs[0] if advs else D, 'exhausted (or empty) iovecs are skipped with `while (bytes >= iov_len)`', 'iovec cursors do not skip consecutive empty iovecs: the output depends on how the data is split')
+    cursors_here = len(advs) == 2
+    if cursors_here:
+        ctx.check(okw, R, 'iovec-cursor|while', advs[0] if advs else D, 'exhausted (or empty) iovecs are skipped with `while (bytes >= iov_len)`', 'iovec cursors do not skip consecutive empty iovecs: the output depends on how the data is split')
+    else:
+        ctx.undecided(R, 'iovec-cursor|while', D, 'the two iovec cursors (current_iov_index / prev_iov_index) are not advanced in format_data itself (moved into a helper or class): cursor rules not evaluated')
     # cursor / array affinity: each iovec array is walked by its own (index, byte offset) pair; the
     # line buffers are filled from the matching array
-    iov_params = [p_ for p_ in params_of(D) if 'iovec' in (qtype(p_) or '')]
-    ctx.require(len(iov_params) == 2, 'format_data: the two iovec array parameters were not found')
+    iov_params = [p_ for p_ in params_of(D) if 'iovec' in (qtype(p_) or '')] if cursors_here else []
+    ctx.require(len(iov_params) == 2 or not cursors_here, 'format_data: the two iovec array parameters were not found')
     use = {}
     for x in walk(dbody):
         if x.get('kind') == 'ArraySubscriptExpr':
@@ -579,7 +562,7 @@ def run(ctx):
             for i in idxs:
                 cursors.setdefault(i, set()).add(arr)
     persistent = {canon(a['inner'][0]) for a in advs}
-    ctx.require(len(persistent & set(cursors)) == 2, 'format_data: the two persistent iovec cursors were not found')
+    ctx.require(len(persistent & set(cursors)) == 2 or not cursors_here, 'format_data: the two persistent iovec cursors were not found')
     for cvar, arrs in sorted(cursors.items()):
         if cvar not in persistent:
             continue   # plain loop counters (e.g. summing the lengths) may visit both arrays
